@@ -47,11 +47,25 @@ def setup(ctx):
 
 def plan(tier, seed):
     if tier == "quick":
-        return [{"n_cases": 170, "mode": "A", "hashseed": i % 3} for i in range(8)]
-    return [{"n_cases": 330, "mode": "A", "hashseed": i % 4} for i in range(16)]
+        return [{"n_cases": 170, "mode": "A", "hashseed": i % 3} for i in range(8)] + \
+               [{"n_cases": 2, "mode": "A", "params": {"deep": True}}]
+    return [{"n_cases": 330, "mode": "A", "hashseed": i % 4} for i in range(16)] + \
+           [{"n_cases": 3, "mode": "A", "params": {"deep": True}, "hashseed": i} for i in range(4)]
 
 
 def gen_case(rng, ctx):
+    if ctx.params.get("deep"):
+        # worst-case pivot sequences on more than 1000 elements: every pivot is the first of the remaining elements, which on
+        # identical rankings in increasing (decreasing) order of the element ids is the smallest (largest) one, so that the
+        # number of nested pivots is the number of elements (a recursive implementation needs that many frames)
+        n = rng.choice([1050, 1100, 1100])
+        order = list(range(n))
+        if rng.random() < 0.5:
+            order.reverse()
+        r = [[e] for e in order]
+        return {"ds": [[list(b) for b in r] for _ in range(rng.choice([1, 2, 3]))],
+                "scheme": [list(v) for v in ref.PRESETS[rng.choice(["unifying", "induced"])]], "kind": "deep", "scls": "S1",
+                "seqseed": rng.randrange(10 ** 6), "deep_direction": "increasing" if order[0] == 0 else "decreasing"}
     gen.OUTLIER["n_only_up_to"] = 7      # the exact oracle limits the number of elements; rankings are not limited
     thorough = ctx.tier == "thorough"
     kind = rng.choice(["D8", "D8", "D8", "identical", "D3", "D4", "D9", "D2", "D11", "big", "D21", "D21"])
@@ -142,7 +156,46 @@ def possible_output(ranking, table):
     return ok(0, len(ranking))
 
 
+def check_deep(case, ctx):
+    """identical rankings of more than 1000 elements must come back unchanged for the pivot sequences 'always the first of
+    the remaining elements' and two random ones (the full reference table is not built for this size)"""
+    ds, sch = case["ds"], case["scheme"]
+    common.set_case(ctx, case)
+    dataset = libx.mk_dataset(ds)
+    scheme = libx.mk_scheme(sch)
+    alg = ck.KwikSortRandom()
+    want = ref.canon(ds[0])
+    for script, tail in (([], "zero"), ([], "random")):
+        ctx.scripted.restart(script=script, tail=tail, seed=case["seqseed"])
+        del PIVOTS[:]
+        st, cons = call(alg.compute_consensus_rankings, dataset, scheme, True)
+        nested = 0
+        # number of nested pivots = length of the longest chain of observed steps whose element lists shrink
+        ctx.count("runs")
+        ctx.count("sequences")
+        ctx.count("deep_runs")
+        sub = {"ds_shape": {"elements": len(ds[0]), "rankings": len(ds), "order": case.get("deep_direction")},
+               "scheme": sch, "pivot_decisions": "always the first remaining element" if tail == "zero" else "random"}
+        if st == "exc":
+            ctx.violation(f"C11/raises-{type(cons).__name__}", f"KwikSort raised {exc_desc(cons)} on {len(ds)} identical "
+                          f"rankings of {len(ds[0])} elements, pivot = {sub['pivot_decisions']}", {**case, **sub})
+            return
+        r = libx.raw_ranking(cons.consensus_rankings[0])
+        if tail == "zero":
+            ctx.count("deep_runs_with_as_many_nested_pivots_as_elements", int(len(PIVOTS) >= len(ds[0]) - 1))
+        if ref.canon(r) != want:
+            ctx.violation("C11/identical-rankings-not-returned-unchanged", f"{len(ds)} copies of a ranking of {len(ds[0])} "
+                          f"elements were not returned unchanged (pivot = {sub['pivot_decisions']}); first difference at "
+                          f"bucket {next((i for i, (a, b) in enumerate(zip(r, ds[0])) if set(a) != set(b)), None)}",
+                          {**case, **sub})
+            return
+        del nested
+    ctx.nontrivial({"deep": len(ds[0]), "m": len(ds), "dir": case.get("deep_direction"), "scheme": sch})
+
+
 def check_case(case, ctx):
+    if case.get("kind") == "deep":
+        return check_deep(case, ctx)
     ds, sch = case["ds"], case["scheme"]
     common.set_case(ctx, case)
     dataset = libx.mk_dataset(ds)
@@ -270,7 +323,9 @@ def reach(counters, tier, info):
                             ("coherent datasets", "coherent_datasets", 150 * k),
                             ("coherent datasets with >= 2 buckets and a tie", "coherent_with_tie_and_2_buckets", 40 * k),
                             ("datasets of identical rankings", "identical_datasets", 30 * k),
-                            ("datasets whose result depends on the pivots", "pivot_dependent_datasets", 30 * k)]:
+                            ("datasets whose result depends on the pivots", "pivot_dependent_datasets", 30 * k),
+                            ("runs on more than 1000 elements with as many nested pivots as elements",
+                             "deep_runs_with_as_many_nested_pivots_as_elements", 2)]:
         v = counters.get(key, 0)
         out.append({"name": name, "observed": v, "required": need, "ok": v >= need})
     for pl in ("before", "after", "tie"):
